@@ -1,14 +1,331 @@
 //! C16 — transfer-fee tokens: the pool still receives and pays the curve amounts (DESIGN §C16).
-//! Function-level part (Engine B) lives in `c16_fn`; the handler-level part (real Token-2022 processor moving funds) is added here.
+//! Function-level part (Engine B) lives in `c16_fn`. Handler-level part (here, Engine A): explicit-state search over pools whose
+//! two mints are Token-2022 mints with a TransferFeeConfig; the real Token-2022 processor moves (and withholds) the funds.
+//! Oracles, all from real balances + the H2 step trace + the emitted events, against the reference fee definition
+//! fee(x) = min(ceil(x*bps/10^4), max):
+//!  * swap: the input vault receives exactly the curve amount (+ swap fee); the trader is debited the smallest amount whose
+//!    fee-reduced value is that (or the specified amount when an exact-in swap is filled), never more than specified; the output
+//!    vault pays exactly the curve output and the trader receives it minus the fee; thresholds flip exactly at what the trader
+//!    actually receives / pays (C03's re-execution with realised-1 / realised / realised+1); the event reports the amounts moved;
+//!  * increase / decrease liquidity: the vault receives / pays exactly ceil / floor of the exact amounts; the owner pays the
+//!    smallest fee-including amount, and token_max / token_min flip exactly at what the owner pays / receives;
+//!  * C01's solvency inequality holds in every state.
+use crate::liqhandlers::{self, LiqEvent};
+use crate::ops::{self, Lim, Op, Part, Stepped};
+use crate::oracles::{self, C03Stats};
+use crate::poolexplore::{self, PoolModel};
+use crate::refmodel::*;
 use crate::report::{Ctx, Report};
+use crate::stdworlds::{self, Built};
+use crate::world::{self, balance, StdWorld, SwapArgs};
+use num_bigint::BigUint;
+use num_traits::Zero;
 use serde_json::Value;
+use std::sync::Mutex;
+use svm::Ledger;
+use whirlpool::math::sqrt_price_from_tick_index;
+use whirlpool::verif_hooks::SwapTrace;
+
+#[derive(Clone, Copy, Debug)]
+struct Fee {
+    bps: u16,
+    max: u64,
+}
+impl Fee {
+    fn of(&self, x: u64) -> u64 {
+        if self.bps == 0 || x == 0 {
+            return 0;
+        }
+        let raw = ceil_div(&(bu(x as u128) * bu(self.bps as u128)), &bu(10_000));
+        let raw = to_u64(&raw).unwrap_or(u64::MAX);
+        raw.min(self.max)
+    }
+    fn net(&self, x: u64) -> u64 {
+        x - self.of(x)
+    }
+}
+
+struct W {
+    b: Built,
+    fee_a: Fee,
+    fee_b: Fee,
+}
+
+fn mk(label: &str, fa: Fee, fb: Fee, roots: &[(&'static str, Vec<Op>)]) -> W {
+    W { b: stdworlds::build_with_roots(&stdworlds::t22_spec(label, fa.bps, fa.max, fb.bps, fb.max), roots), fee_a: fa, fee_b: fb }
+}
+
+fn worlds(thorough: bool) -> Vec<W> {
+    let roots = stdworlds::std_roots();
+    let mut v = vec![mk("c16-t22-100-5000", Fee { bps: 100, max: 5_000 }, Fee { bps: 5_000, max: u64::MAX }, &roots[..4])];
+    v.push(mk("c16-t22-1-10000", Fee { bps: 1, max: u64::MAX }, Fee { bps: 10_000, max: 1_000 }, &roots[1..3]));
+    if thorough {
+        v.push(mk("c16-t22-0-9999", Fee { bps: 0, max: 0 }, Fee { bps: 9_999, max: 123_456 }, &roots[..4]));
+        v.push(mk("c16-t22-250-1", Fee { bps: 250, max: 1 }, Fee { bps: 33, max: 77 }, &roots[..4]));
+    }
+    v
+}
+
+fn alphabet(_b: &Built) -> Vec<Op> {
+    let mut a = vec![];
+    for a_to_b in [true, false] {
+        a.push(Op::Swap { a_to_b, exact_in: true, amount: 1_000_000, lim: Lim::None, v2: true });
+        a.push(Op::Swap { a_to_b, exact_in: false, amount: 100_000, lim: Lim::None, v2: true });
+        a.push(Op::Swap { a_to_b, exact_in: true, amount: 30_000_000, lim: Lim::Mid, v2: true }); // partial exact-in: included amount is charged
+        a.push(Op::Swap { a_to_b, exact_in: false, amount: 30_000_000, lim: Lim::Mid, v2: true }); // partial exact-out
+        a.push(Op::Swap { a_to_b, exact_in: true, amount: 20_000_000, lim: Lim::None, v2: true }); // crosses ticks
+        a.push(Op::Swap { a_to_b, exact_in: true, amount: 3, lim: Lim::None, v2: true });
+        a.push(Op::Swap { a_to_b, exact_in: false, amount: 1, lim: Lim::None, v2: true });
+    }
+    for pos in 0..3u8 {
+        a.push(Op::Inc { pos, liq: stdworlds::BIG, v2: true });
+        a.push(Op::Inc { pos, liq: 777, v2: true });
+        a.push(Op::Dec { pos, part: Part::All, v2: true });
+        a.push(Op::Dec { pos, part: Part::Half, v2: true });
+    }
+    a.push(Op::CollectFees { pos: 0, v2: true });
+    a.push(Op::CollectProtocol { v2: true });
+    a
+}
+
+#[derive(Default, Clone, Debug)]
+struct Stats {
+    swaps: u64,
+    swaps_partial_exact_in: u64,
+    swaps_exact_out: u64,
+    fee_capped: u64,
+    fee_uncapped_nonzero: u64,
+    incs: u64,
+    decs: u64,
+    bound_reruns: u64,
+    bound_failures: u64,
+    c03: C03Stats,
+}
+
+fn least_preimage_ok(f: &Fee, paid: u64, need: u64) -> bool {
+    // `paid` is the smallest amount whose fee-reduced value is `need`
+    f.net(paid) == need && (paid == 0 || f.net(paid - 1) < need)
+}
+
+fn swap_oracle(wd: &W, pre: &Ledger, st: &Stepped, a_to_b: bool, exact_in: bool, amount: u64, limit: u128, v2ix: &dyn Fn(u64) -> solana_program::instruction::Instruction, s: &mut Stats) -> Result<(), String> {
+    let w = &wd.b.w;
+    let post = &st.ledger;
+    let (fin, fout) = if a_to_b { (wd.fee_a, wd.fee_b) } else { (wd.fee_b, wd.fee_a) };
+    let o = oracles::observe_swap(pre, post, w, a_to_b, exact_in, amount, limit);
+    let mut curve_in = BigUint::zero();
+    let mut curve_out = BigUint::zero();
+    for t in &st.trace {
+        if let SwapTrace::Step(x) = t {
+            curve_in += bu(x.amount_in as u128) + bu(x.fee_amount as u128);
+            curve_out += bu(x.amount_out as u128);
+        }
+    }
+    s.swaps += 1;
+    if bu(o.vault_in as u128) != curve_in {
+        return Err(format!("input vault received {} but the curve amount (+swap fee) is {curve_in}", o.vault_in));
+    }
+    if bu(o.vault_out as u128) != curve_out {
+        return Err(format!("output vault paid {} but the curve output is {curve_out}", o.vault_out));
+    }
+    if o.vault_in != fin.net(o.trader_in) {
+        return Err(format!("trader was debited {} whose fee-reduced value is {} but the vault received {}", o.trader_in, fin.net(o.trader_in), o.vault_in));
+    }
+    if o.trader_out != fout.net(o.vault_out) {
+        return Err(format!("vault paid {} whose fee-reduced value is {} but the trader received {}", o.vault_out, fout.net(o.vault_out), o.trader_out));
+    }
+    let f_in = fin.of(o.trader_in);
+    if f_in > 0 {
+        if f_in == fin.max {
+            s.fee_capped += 1;
+        } else {
+            s.fee_uncapped_nonzero += 1;
+        }
+    }
+    let filled_exact_in = exact_in && o.trader_in == amount;
+    if exact_in && o.trader_in > amount {
+        return Err(format!("exact-in swap of {amount} debited {}", o.trader_in));
+    }
+    if !filled_exact_in {
+        // partial exact-in or exact-out: the requested amount is the smallest whose fee-reduced value is what the pool needs
+        if exact_in {
+            s.swaps_partial_exact_in += 1;
+        } else {
+            s.swaps_exact_out += 1;
+        }
+        if !least_preimage_ok(&fin, o.trader_in, o.vault_in) {
+            return Err(format!("trader was debited {} but a smaller amount already nets the {} the pool needs (fee {:?})", o.trader_in, o.vault_in, fin));
+        }
+    }
+    if !exact_in {
+        // the specified output is what the trader actually receives
+        let p1 = w.pool.state(post);
+        let eff = if limit == 0 { if a_to_b { MIN_SQRT_PRICE } else { MAX_SQRT_PRICE } } else { limit };
+        if p1.sqrt_price != eff && o.trader_out != amount {
+            return Err(format!("exact-out swap for {amount} delivered {} to the trader (vault paid {})", o.trader_out, o.vault_out));
+        }
+        if o.trader_out > amount {
+            return Err(format!("exact-out swap for {amount} delivered more: {}", o.trader_out));
+        }
+    }
+    // event == amounts moved
+    let evs: Vec<oracles::Traded> = st.outcome.events.iter().filter_map(|e| oracles::decode_traded(e)).collect();
+    if evs.len() != 1 {
+        return Err(format!("{} Traded events", evs.len()));
+    }
+    let e = &evs[0];
+    if e.input_amount != o.trader_in || e.output_amount != o.vault_out || e.input_transfer_fee != o.trader_in - o.vault_in || e.output_transfer_fee != o.vault_out - o.trader_out {
+        return Err(format!(
+            "Traded event reports in {} (fee {}) out {} (fee {}) but trader paid {} (fee {}), vault paid {} (fee {})",
+            e.input_amount, e.input_transfer_fee, e.output_amount, e.output_transfer_fee, o.trader_in, o.trader_in - o.vault_in, o.vault_out, o.vault_out - o.trader_out
+        ));
+    }
+    // thresholds apply to what the trader actually receives / pays (plus direction / limit / partial-fill clauses of C03)
+    oracles::c03_swap_oracle(pre, post, w, a_to_b, exact_in, amount, limit, v2ix, &mut s.c03)
+}
+
+fn liq_oracle(wd: &W, pre: &Ledger, st: &Stepped, pos: usize, liq: u128, increase: bool, s: &mut Stats) -> Result<(), String> {
+    let w = &wd.b.w;
+    let p = &w.positions[pos];
+    let post = &st.ledger;
+    let pool = w.pool.state(pre);
+    let (pl, pu) = (sqrt_price_from_tick_index(p.lower), sqrt_price_from_tick_index(p.upper));
+    let (qa, qb) = if pool.tick_current_index < p.lower {
+        (exact_delta_a(pl, pu, liq), Q::zero())
+    } else if pool.tick_current_index < p.upper {
+        (exact_delta_a(pool.sqrt_price, pu, liq), exact_delta_b(pl, pool.sqrt_price, liq))
+    } else {
+        (Q::zero(), exact_delta_b(pl, pu, liq))
+    };
+    let (ea, eb) = if increase { (qa.ceil(), qb.ceil()) } else { (qa.floor(), qb.floor()) };
+    let d = |x: u64, y: u64| if increase { x.wrapping_sub(y) } else { y.wrapping_sub(x) };
+    let wa = d(balance(pre, &w.lp.acct_a), balance(post, &w.lp.acct_a));
+    let wb = d(balance(pre, &w.lp.acct_b), balance(post, &w.lp.acct_b));
+    let va = d(balance(post, &w.pool.vault_a), balance(pre, &w.pool.vault_a));
+    let vb = d(balance(post, &w.pool.vault_b), balance(pre, &w.pool.vault_b));
+    let what = if increase { "increase" } else { "decrease" };
+    if bu(va as u128) != ea || bu(vb as u128) != eb {
+        return Err(format!("{what} of {liq}: vault moved {va}/{vb}, exact amounts rounded {} are {ea}/{eb}", if increase { "up" } else { "down" }));
+    }
+    let evs: Vec<LiqEvent> = st.outcome.events.iter().filter_map(|e| liqhandlers::decode_liq_event(e)).collect();
+    if evs.len() != 1 {
+        return Err(format!("{what}: {} liquidity events", evs.len()));
+    }
+    let e = &evs[0];
+    if increase {
+        s.incs += 1;
+        // the owner pays the smallest amounts whose fee-reduced values are what the vault needs
+        if !least_preimage_ok(&wd.fee_a, wa, va) || !least_preimage_ok(&wd.fee_b, wb, vb) {
+            return Err(format!("increase: owner paid {wa}/{wb} for vault amounts {va}/{vb}: not the smallest fee-including amounts"));
+        }
+        if e.a != wa || e.b != wb || e.fee_a != wa - va || e.fee_b != wb - vb || e.liquidity != liq || !e.increased {
+            return Err(format!("increase: event {e:?} vs owner paid {wa}/{wb}, fees {}/{}", wa - va, wb - vb));
+        }
+    } else {
+        s.decs += 1;
+        if wa != wd.fee_a.net(va) || wb != wd.fee_b.net(vb) {
+            return Err(format!("decrease: vault paid {va}/{vb} but the owner received {wa}/{wb}"));
+        }
+        if e.a != va || e.b != vb || e.fee_a != va - wa || e.fee_b != vb - wb || e.liquidity != liq || e.increased {
+            return Err(format!("decrease: event {e:?} vs vault paid {va}/{vb}, fees {}/{}", va - wa, vb - wb));
+        }
+    }
+    // caller bounds apply to what the owner pays / receives
+    for (ba, bb) in [(wa.checked_sub(1), Some(wb)), (Some(wa), wb.checked_sub(1)), (Some(wa), Some(wb)), (wa.checked_add(1), Some(wb)), (Some(wa), wb.checked_add(1))] {
+        let (Some(ba), Some(bb)) = (ba, bb) else { continue };
+        let ix = if increase { world::ix_increase(p, &w.lp, liq, ba, bb, true) } else { world::ix_decrease(p, &w.lp, liq, ba, bb, true) };
+        let mut c = pre.clone();
+        let o = svm::process(&mut c, &ix);
+        s.bound_reruns += 1;
+        let should = if increase { ba >= wa && bb >= wb } else { ba <= wa && bb <= wb };
+        if o.ok() != should {
+            return Err(format!("{what} where the owner {} {wa}/{wb}: caller bounds {ba}/{bb} gave {} (expected {})", if increase { "pays" } else { "receives" }, o.short(), if should { "success" } else { "failure" }));
+        }
+        if !o.ok() {
+            s.bound_failures += 1;
+        }
+    }
+    Ok(())
+}
+
+fn model<'a>(wd: &'a W, stats: &'a Mutex<Stats>) -> PoolModel<'a> {
+    PoolModel::new(
+        &wd.b.w,
+        alphabet(&wd.b),
+        Box::new(|l: &Ledger, w: &StdWorld| oracles::c01_vault_invariant(l, w)),
+        Box::new(move |pre: &Ledger, st: &Stepped, w: &StdWorld, op: &Op| {
+            let mut local = Stats::default();
+            let r = match op {
+                Op::Swap { a_to_b, exact_in, amount, lim, .. } => {
+                    let limit = ops::resolve_limit(pre, &w.pool, *a_to_b, *lim);
+                    let p0 = w.pool.state(pre);
+                    let tas = world::swap_tick_arrays(&w.pool, p0.tick_current_index, *a_to_b);
+                    let ix_of = |th: u64| {
+                        let args = SwapArgs { amount: *amount, other_amount_threshold: th, sqrt_price_limit: limit, amount_specified_is_input: *exact_in, a_to_b: *a_to_b };
+                        world::ix_swap(&w.pool, &w.trader, args, tas, true, &[])
+                    };
+                    swap_oracle(wd, pre, st, *a_to_b, *exact_in, *amount, limit, &ix_of, &mut local)
+                }
+                Op::Inc { pos, liq, .. } => liq_oracle(wd, pre, st, *pos as usize, *liq, true, &mut local),
+                Op::Dec { pos, part, .. } => {
+                    let cur = w.positions[*pos as usize].state(pre).liquidity;
+                    let amt = match part {
+                        Part::All => cur,
+                        Part::Half => cur / 2,
+                        Part::One => 1.min(cur),
+                    };
+                    liq_oracle(wd, pre, st, *pos as usize, amt, false, &mut local)
+                }
+                _ => Ok(()),
+            };
+            let mut g = stats.lock().unwrap();
+            g.swaps += local.swaps;
+            g.swaps_partial_exact_in += local.swaps_partial_exact_in;
+            g.swaps_exact_out += local.swaps_exact_out;
+            g.fee_capped += local.fee_capped;
+            g.fee_uncapped_nonzero += local.fee_uncapped_nonzero;
+            g.incs += local.incs;
+            g.decs += local.decs;
+            g.bound_reruns += local.bound_reruns + local.c03.threshold_reruns;
+            g.bound_failures += local.bound_failures + local.c03.threshold_failures_seen;
+            r
+        }),
+    )
+}
 
 pub fn run(ctx: &Ctx) -> Report {
-    let mut r = Report::new("C16", "exploration");
+    let mut r = Report::new("C16", "model_checking");
     super::c16_fn::run_fn(ctx, &mut r);
     let rule = r.coverage.get("fn_rule").cloned().unwrap_or(Value::Null);
     r.set("rule", rule);
+    if r.violations.is_empty() {
+        let ws = worlds(!ctx.tier.is_quick());
+        let share = ctx.left() * 0.9 / ws.len() as f64;
+        let stats = Mutex::new(Stats::default());
+        for wd in &ws {
+            let m = model(wd, &stats);
+            let out = poolexplore::run_world(ctx, &mut r, &wd.b, &m, ctx.pick(3, 5), share);
+            poolexplore::fold(&mut r, &wd.b.name, &out, &m.alphabet[..3]);
+            if !r.violations.is_empty() {
+                break;
+            }
+        }
+        let s = stats.lock().unwrap().clone();
+        r.set("handler_swaps_checked", s.swaps);
+        r.set("handler_increases_checked", s.incs);
+        r.set("handler_decreases_checked", s.decs);
+        r.set("handler_bound_and_threshold_reexecutions", s.bound_reruns);
+        r.guard("handler_swaps_checked", s.swaps);
+        r.guard("handler_partial_exact_in_swaps", s.swaps_partial_exact_in);
+        r.guard("handler_exact_out_swaps", s.swaps_exact_out);
+        r.guard("handler_swaps_with_capped_transfer_fee", s.fee_capped);
+        r.guard("handler_swaps_with_uncapped_transfer_fee", s.fee_uncapped_nonzero);
+        r.guard("handler_increases_checked", s.incs);
+        r.guard("handler_decreases_checked", s.decs);
+        r.guard("handler_bound_failures_seen", s.bound_failures);
+    }
     r.set("exhaustive", false);
+    r.assume("svm-lite faithfully replaces the validator (DESIGN §2.1); the Token-2022 processor is the real one (withheld fees stay in the recipient account, so `amount` deltas are the net amounts)");
+    r.assume("handler-level worlds use one fee schedule per mint (older == newer); epoch selection is covered at function level");
     r
 }
 
@@ -16,5 +333,15 @@ pub fn replay(case: &Value) -> Result<(), String> {
     if let Some(res) = super::c16_fn::replay_fn(case) {
         return res;
     }
-    Err("bad case".into())
+    match case["kind"].as_str() {
+        Some("ops") => {
+            let ws = worlds(true);
+            let name = case["world"].as_str().ok_or("world")?;
+            let wd = ws.iter().find(|w| w.b.name == name).ok_or("unknown world")?;
+            let stats = Mutex::new(Stats::default());
+            let m = model(wd, &stats);
+            poolexplore::replay_ops(&wd.b, &m, case["root"].as_str().ok_or("root")?, &case["ops"])
+        }
+        _ => Err("bad case".into()),
+    }
 }
